@@ -491,6 +491,21 @@ class Field(BaseField):
 
         :param cfg: current config
         """
+        value = self._get_env_value(cfg)
+
+        if value is None:
+            value = self.default
+
+        cfg._set_default_value(self._key, value)
+
+    def _get_env_value(self, cfg: "Config") -> Any:
+        """
+        Get the validated value of the field's environment variable.
+
+        :param cfg: current config
+        :returns: the validated value or ``None`` when the field is not bound to an environment
+            variable or the variable is not set
+        """
         value = None
 
         if isinstance(self.env, str) and self.env:
@@ -505,10 +520,7 @@ class Field(BaseField):
                 else:
                     value = env_value
 
-        if value is None:
-            value = self.default
-
-        cfg._set_default_value(self._key, value)
+        return value
 
     def to_python(self, cfg: "Config", value: Any) -> Any:
         """
